@@ -27,7 +27,7 @@ from fractions import Fraction as F
 import numpy as np
 
 from harness import gallina as g
-from harness.util import import_df, attempt
+from harness.util import import_df, attempt, relayout, LAYOUTS
 
 df = import_df()
 
@@ -38,8 +38,8 @@ _counter = [0]
 T_UNITWS = "C09-unit-whitespace"     # known finding: units with white space cannot be stored
 T_BRACES = "C09-label-braces"        # optional stream (VERIF_C09_BRACES=1): the reader strips { and }
 
-T_STALE = "C09-stale-sidecar"        # known finding: save with subregions, then save without to the same
-                                     # name: the old side-car is read back (clause stale-sidecar)
+# (the stale side-car defect - an older side-car read back as the subregions of a field saved without any -
+#  is repaired in /repo; the `stale` scenarios are ordinary armed cases now)
 # observation only (complex fields are outside C09's quantifier, OVF is a real format): bin4/bin8 store the
 # real parts of a complex field and drop non-zero imaginary parts silently; txt writes rows the reader refuses
 
@@ -438,6 +438,7 @@ def dress(rng, fc):
         ctypes += ["f32"]
     fc["ctype"] = rng.choice(ctypes)
     fc["ntype"] = rng.choice(list(NTYPES))
+    fc["layout"] = rng.choice(LAYOUTS)
     fc["wpath"] = rng.choice(["str", "Path"])
     fc["rpath"] = rng.choice(["str", "Path"])
     if rng.random() < 0.4:
@@ -541,7 +542,15 @@ def gen_state(rng, tier, i):
     if scen == "stems":
         f2["subs"] = [] if rng.random() < 0.5 else gen_subs(rng, [min(unhex(a), unhex(b)) for a, b in zip(f1["p1"], f1["p2"])],
                                                             [max(unhex(a), unhex(b)) for a, b in zip(f1["p1"], f1["p2"])], f1["n"])
-    return dict(kind="state", scen=scen, field=f1, field2=f2, rep=rep_,
+    variant = None
+    if scen == "stale":
+        variant = rng.choice(["over", "over", "over_other", "over_subs", "nosave", "fresh_none"])
+        if variant == "over_other":
+            f2 = gen_field(rng, tier, subs=False, maxn=3)
+        elif variant == "over_subs":
+            f2["subs"] = gen_subs(rng, [min(unhex(a), unhex(b)) for a, b in zip(f1["p1"], f1["p2"])],
+                                  [max(unhex(a), unhex(b)) for a, b in zip(f1["p1"], f1["p2"])], f1["n"])
+    return dict(kind="state", scen=scen, field=f1, field2=f2, rep=rep_, variant=variant,
                 exts=rng.sample(["ovf", "omf", "ohf"], 2), wpath=rng.choice(["str", "Path"]))
 
 
@@ -616,14 +625,8 @@ def generate(rng, tier):
         f["munits"] = rng.choice([["m", "nm", "m"], ["m", "m", "s"], ["a", "b", "c"]])
         cases.append(dict(kind="round", field=f, rep=REPS[i % 3], extend=False))
     # state left by earlier calls, repeated calls, neighbours in the directory
-    nstale = 0
-    for i in range(24 if quick else 160):
-        c = gen_state(rng, tier, i)
-        if c["scen"] == "stale":
-            nstale += 1
-            if nstale > (3 if quick else 6):      # known finding: small stream
-                c["scen"] = "stems"
-        cases.append(c)
+    for i in range(30 if quick else 180):
+        cases.append(gen_state(rng, tier, i))
     # axis-order probes: index-coded values on meshes with three different n
     for i in range(12 if quick else 60):
         f = gen_field(rng, tier, vcls="index", exact=True)
@@ -760,7 +763,7 @@ def make_mesh(fc):
 
 def make_field(fc, mesh=None):
     mesh = make_mesh(fc) if mesh is None else mesh
-    arr = field_array(fc)
+    arr = relayout(field_array(fc), fc.get("layout"))      # same values, other strides / flags
     kw = {}
     if fc.get("dtype"):
         kw["dtype"] = arr.dtype
@@ -1309,6 +1312,15 @@ def check_file(fc, rep, path):
     return oracle_written(fc, rep, False, a, blob.split(b"\n", 1)[0].decode("utf-8", errors="replace"))
 
 
+def read_sidecar(path):
+    """the side-car next to `path` as [[name, pmin, pmax], ...] or None when there is no file"""
+    sp = path + ".subregions.json"
+    if not os.path.exists(sp):
+        return None
+    sj = json.load(open(sp))
+    return [[k, [fhex(x) for x in v["pmin"]], [fhex(x) for x in v["pmax"]]] for k, v in sj.items()]
+
+
 def run_state(case):
     scen, rep = case["scen"], case["rep"]
     oracle, tags, coq = [], [], None
@@ -1397,32 +1409,54 @@ def run_state(case):
                 bad += oracle_roundtrip(f1, rep, False, observe_field(df.Field.from_file(P)))
                 bad += oracle_roundtrip(f2, rep, False, observe_field(df.Field.from_file(Q)))
                 obs["files"] = sorted(os.listdir(d))
-            else:  # stale
+            else:  # stale: what is on disk at that name before the save
                 P = os.path.join(d, "t.ovf")
-                A.to_file(patharg(P, wp), representation=rep)
-                B.to_file(patharg(P, wp), representation=rep)
+                var = case.get("variant") or "over"
+                save2 = var != "nosave"
+                before = None
+                if var != "fresh_none":
+                    A.to_file(patharg(P, wp), representation=rep)
+                    before = read_sidecar(P)
+                    raw_before = open(P + ".subregions.json", "rb").read()
+                    B.to_file(patharg(P, wp), representation=rep, save_subregions=save2)
+                else:
+                    A.to_file(patharg(P, wp), representation=rep, save_subregions=False)   # nothing created
+                    if os.path.exists(P + ".subregions.json"):
+                        bad.append("file-sidecar")
+                    B.to_file(patharg(P, wp), representation=rep)
+                after = read_sidecar(P)
+                obs["sidecar"] = dict(before=before, after=after, save=save2)
+                want_b = [[k, [fhex(min(unhex(x), unhex(y))) for x, y in zip(p_, q_)],
+                           [fhex(max(unhex(x), unhex(y))) for x, y in zip(p_, q_)]] for k, p_, q_ in f2["subs"]]
+                # contract: written iff save and (subregions or a side-car was there); content = the saved field's
+                if not save2:
+                    want_after = before
+                    if open(P + ".subregions.json", "rb").read() != raw_before:
+                        bad.append("file-sidecar")
+                elif want_b or before is not None:
+                    want_after = want_b
+                else:
+                    want_after = None
+                if after != want_after:
+                    bad.append("file-sidecar")
                 o = observe_field(df.Field.from_file(P))
-                rest = oracle_roundtrip(f2, rep, False, o)
-                obs["stale_sidecar_read"] = "subregions" in rest
-                if "subregions" in rest:
-                    tags.append(T_STALE)
-                    rest = [c for c in rest if c != "subregions"] + ["stale-sidecar"]
-                bad += rest
+                expect = dict(f2)
+                if not save2:
+                    expect["subs"] = f1["subs"]        # the disk was left alone: the reader finds A's table
+                bad += oracle_roundtrip(expect, rep, False, o) + check_file(f2, rep, P)
+                obs["coq"] = (f"CSidecar {'None' if before is None else '(Some ' + g_sidecar(before) + ')'} {g.b(save2)} "
+                              f"{g_sidecar(want_b)} {'None' if after is None else '(Some ' + g_sidecar(after) + ')'}")
             if snapshot(A) != sa or snapshot(B) != sb:
                 bad.append("operand-modified")
             return bad
         st, out = attempt(go)
         if st != "ok":
-            if scen == "stale":
-                tags.append(T_STALE)
-                obs["stale_sidecar_read"] = "rejected"
-                oracle.append("stale-sidecar")
-            else:
-                oracle.append("roundtrip-rejected")
+            oracle.append("roundtrip-rejected")
             obs["rejected"] = out
         else:
             oracle += out
-        key = f"state|{scen}|{rep}|{bool(f2['subs'])}|{st}"
+        coq = obs.pop("coq", None)
+        key = f"state|{scen}|{case.get('variant')}|{rep}|{bool(f2['subs'])}|{st}"
     shutil.rmtree(d, ignore_errors=True)
     return rec("state", case, obs, coq, oracle, key, 50 + len(case["field"]["vals"]), tags)
 
